@@ -85,7 +85,7 @@ def extreme_atoms():
     for kw in ("minLength", "maxLength", "minItems", "maxItems", "minProperties", "maxProperties"):
         for n in (0, 2 ** 63, 10 ** 30):
             out.append({kw: n})
-    for f in ("date-time", "uuid"):
+    for f in ("date-time", "uuid", "UUID", "Date-Time", "DATE-TIME", "uuid ", ""):
         out.append({"format": f})
     for p in ("^a*$", "\\d+", "[\\x00-\\x1f]", "^(?:a|b)+$", "\\s", ".", "$^", "\\W"):
         out.append({"pattern": p})
